@@ -12,6 +12,7 @@ static GenCfg cfg;
 #define ROOTVIEW(X) X()
 #endif
 
+template<class V> static auto can_reindex(int) -> decltype(std::declval<V&>().reindexed(L{}), std::true_type{}); template<class V> static std::false_type can_reindex(...);
 struct C01Vis {
 	int const* base; L rootn; L elems_compared = 0; int effective_ops = 0;
 
@@ -82,6 +83,19 @@ struct C01Vis {
 			if constexpr(D >= 1) { op("~broadcasted()"); auto&& bt = v.broadcasted().transposed(); for(L k = 0; k < N; ++k) { m.unlin(k, ix); for(L i : {L(0), L(4)}) { std::vector<L> jx = ix; jx.insert(jx.begin() + 1, i);
 				if(std::addressof(brk(bt, jx)) != base + m.off[std::size_t(k)]) { violation("C01:broadcasted:transposed:element", "(~broadcasted()) designates another element at " + join(jx)); break; } } } count("op:~broadcasted()"); }
 			count("op:broadcasted");
+		}
+		if constexpr(D >= 1 && decltype(can_reindex<std::remove_reference_t<V>>(0))::value) {  // (the 1-D specialisation declares reindexed() for non-const objects only; those are skipped)  the "all" placeholder on a dimension whose first index is not 0 (README: S(multi::_) is S(S.extension())): same extension, same elements
+			op("call(_):re-based"); std::vector<L> ix(std::size_t(D), 0); L const N = std::min<L>(m.n(), 48);
+			for(L r : {L(-3), L(2)}) { auto&& w = v.reindexed(r); auto&& wa = w(multi::_);
+				if(L(wa.extension().first()) != r || L(wa.size()) != m.size[0]) violation("C01:call(_):re-based:extension", "w(_) of a view whose leading extension is [" + std::to_string(r) + "," + std::to_string(r + m.size[0]) + ") reports [" + std::to_string(L(wa.extension().first())) + "," + std::to_string(L(wa.extension().last())) + ")");
+				else for(L k = 0; k < N; ++k) { m.unlin(k, ix); std::vector<L> jx = ix; jx[0] += r; if(std::addressof(brk(wa, jx)) != base + m.off[std::size_t(k)]) { violation("C01:call(_):re-based:element", "w(_) designates another element at " + join(jx)); break; } }
+				if constexpr(D >= 2) { for(L j : {L(0), m.size[1] - 1}) { auto&& wc = w(multi::_, j);
+					if(L(wc.extension().first()) != r || L(wc.size()) != m.size[0]) { violation("C01:call(_,j):re-based:extension", "w(_, j) of a view whose leading extension starts at " + std::to_string(r) + " reports [" + std::to_string(L(wc.extension().first())) + "," + std::to_string(L(wc.extension().last())) + ")"); continue; }
+					for(L i = 0; i < std::min<L>(m.size[0], 6); ++i) { std::vector<L> ex(std::size_t(D), 0); ex[0] = i; ex[1] = j; std::vector<L> jx(std::size_t(D - 1), 0); jx[0] = r + i;
+						if(std::addressof(brk(wc, jx)) != base + m.off[std::size_t(m.lin(ex))]) { violation("C01:call(_,j):re-based:element", "w(_, j)[i] designates another element than w[i][j]"); break; } } }
+					{ auto&& wu = w(multi::_ < r + 1, 0); if(L(wu.size()) != 1 || L(wu.extension().first()) != r) violation("C01:call(_<n,j):re-based:extension", "w(_ < first+1, 0) is not the one-element range [first, first+1)"); } }
+			}
+			count("op:call(_):re-based");
 		}
 		nontrivial(effective_ops >= 1 && elems_compared >= 1);
 	}
